@@ -80,3 +80,12 @@ Proof.
   destruct (read_response_head meth bufsize s) as [e|[r rest]]; [reflexivity|].
   destruct (is_1xx_nonterminal (r_code r)); [|reflexivity]. now rewrite IH.
 Qed.
+
+Theorem heads_fit_f_eq fuel : forall meth bufsize lim s,
+  heads_fit_f fuel meth bufsize lim s = heads_fit fuel meth bufsize lim s.
+Proof.
+  induction fuel as [|f IH]; intros; [reflexivity|]. cbn [heads_fit_f heads_fit].
+  rewrite read_response_head_f_eq.
+  destruct (read_response_head meth bufsize s) as [e|[r rest]]; [reflexivity|].
+  destruct (is_1xx_nonterminal (r_code r)); [|reflexivity]. now rewrite IH.
+Qed.
